@@ -68,6 +68,14 @@ func c01Specs(tier string) []*Spec {
 		specs = append(specs, &Spec{ID: "C01", Name: name, Cfg: cfg, Keys: keysA, Vals: bs("x"), MaxDepth: depth, MaxMaint: 2, Weight: 8,
 			Alphabet: a.Ops, Oracles: []Oracle{oracleReads(pr)}})
 	}
+	// versions that were obtained once (GetImmutable), rolled back and written again with other contents
+	addRewrite := func(name string, cfg Cfg, depth int) {
+		keys := bs("a", "b")
+		pr := probesFor(keys)
+		a := Alpha{Writes: true, NoRemove: true, Save: true, LVFO: true, Hold: true, MaxVersions: 2}
+		specs = append(specs, &Spec{ID: "C01", Name: name, Cfg: cfg, Keys: keys, Vals: bs("x", "y"), MaxDepth: depth, MaxMaint: 1, Weight: 8,
+			Alphabet: a.Ops, Oracles: []Oracle{oracleReads(pr)}})
+	}
 	// idempotent re-commits of an existing version (load an older version, replay, SaveVersion succeeds without effect)
 	addResave := func(name string, cfg Cfg, depth int) {
 		keys := bs("a")
@@ -80,6 +88,7 @@ func c01Specs(tier string) []*Spec {
 	if tier == "quick" {
 		add("emptykey/default/d4", defaultCfg, [][]byte{{}, []byte("a"), {0x00}}, bs("x", ""), 4, 2)
 		add("emptykey/nofast-cache3/d4", Cfg{Fast: false, Cache: 3}, [][]byte{{}, []byte("a"), {0x00}}, bs("x", ""), 4, 2)
+		addRewrite("rewrite/2keys/d8", defaultCfg, 8)
 		addResave("resave/1key/d9", defaultCfg, 9)
 		addHold("hold/default/d6", defaultCfg, 6)
 		addHold("hold/cache1000-nofast/d6", Cfg{Fast: false, Cache: 1000}, 6)
@@ -100,6 +109,8 @@ func c01Specs(tier string) []*Spec {
 	add("default/a-ab-b/d7", defaultCfg, keysA, vals, 7, 2)
 	add("emptykey/default/d6", defaultCfg, [][]byte{{}, []byte("a"), {0x00}}, bs("x", ""), 6, 2)
 	add("emptykey/nofast-cache3/d5", Cfg{Fast: false, Cache: 3}, [][]byte{{}, []byte("a"), {0x00}}, bs("x", ""), 5, 2)
+	addRewrite("rewrite/2keys/d10", defaultCfg, 10)
+	addRewrite("rewrite-nofast-cache1000/2keys/d9", Cfg{Fast: false, Cache: 1000}, 9)
 	addResave("resave/1key/d11", defaultCfg, 11)
 	addHold("hold/default/d7", defaultCfg, 7)
 	addHold("hold/cache1000-nofast/d6", Cfg{Fast: false, Cache: 1000}, 6)
